@@ -151,8 +151,13 @@ def protected(node: ast.AST, fi: FuncInfo) -> bool:
                 if isinstance(ce, ast.Call) and chain(ce.func) in ("suppress", "contextlib.suppress") \
                         and any(chain(a) in ("Exception", "BaseException") for a in ce.args):
                     return True
+                # a context manager of the library that does what `try: <body> / except Exception:` does
+                if "*" in _with_item_handlers(fi, p, it):
+                    return True
         cur, p = p, parent(p)
     return False
+
+
 EXPLANATION = (
     "The unprotected part of the receive path is computed from the source (every on_packet of an EndpointListener "
     "subclass, notify_listeners/_deliver_later/datagram_received, and every resolved callee, stopping at try/except "
@@ -183,7 +188,14 @@ EXPLANATION = (
     "Plus count-honoured: a loop of a Packer's unpack that decodes one item per wire-announced item (for over range(count), while "
     "with a counter, while True with a count break) has no normal exit that depends on anything but the count and the counter. "
     "Plus lock-released: a lock taken with an explicit .acquire() call anywhere in the library is released on every normal and "
-    "exceptional way out of the function (a lock left held by a contained handler exception blocks the delivery of every later datagram)."
+    "exceptional way out of the function (a lock left held by a contained handler exception blocks the delivery of every later datagram). "
+    "Plus table-read-guarded: in the same unprotected region every subscript read T[k] of a routing table of the crypto endpoint (its "
+    "dict[int, ..] attributes, and attributes of other classes bound to them) is dominated by a still-valid membership fact `k in T` (a test, "
+    "a truthy / not-None `.get(k)`, a decision carried by a local or helper) - in the function or at EVERY call through which the region "
+    "reaches it, arguments substituted for parameters - or lies under a KeyError handler (here or around every such call). "
+    "A `with` block of a context manager written in the library counts as the try statement it stands for: a @contextmanager generator "
+    "whose single yield sits in `try: yield / except E:`, or an object whose __exit__ returns a true value (or raises another exception) on "
+    "every path on which the passing exception is an instance of E (decided on the CFG of __exit__), handles E around the block."
 )
 
 SER = "ipv8/messaging/serialization.py"
@@ -1557,8 +1569,9 @@ def _exc_names(fi: FuncInfo, e: ast.AST | None, depth: int = 0) -> set[str]:
     return {c}
 
 
-def _handlers_around(node: ast.AST, fi: FuncInfo):
-    """the exception classes (canonical names; "*" for a catch-all) for which `node` lies in the BODY of a try / suppress"""
+def _handlers_around(node: ast.AST, fi: FuncInfo, bind=None, _depth: int = 0):
+    """the exception classes (canonical names; "*" for a catch-all) for which `node` lies in the BODY of a try / suppress / a `with`
+    of a library context manager that stands for such a try (`bind`: see _exc_names_bound)"""
     out: set[str] = set()
     cur = node
     p = parent(cur)
@@ -1568,16 +1581,237 @@ def _handlers_around(node: ast.AST, fi: FuncInfo):
                 if _catches_all(h):
                     out.add("*")
                 else:
-                    out |= _exc_names(fi, h.type)
+                    ns = _exc_names_bound(fi, h.type, bind)
+                    out |= {"*"} if bind is not None and ns & {"Exception", "BaseException"} else ns
         if isinstance(p, (ast.With, ast.AsyncWith)) and any(cur is s_ for s_ in p.body):
             for it in p.items:
                 ce = it.context_expr
                 if isinstance(ce, ast.Call) and chain(ce.func) in ("suppress", "contextlib.suppress"):
                     for a in ce.args:
-                        ns = _exc_names(fi, a)
+                        ns = _exc_names_bound(fi, a, bind)
                         out |= {"*"} if ns & {"Exception", "BaseException"} else ns
+                else:
+                    out |= _with_item_handlers(fi, p, it, _depth + 1)
         cur, p = p, parent(p)
     return out
+
+
+# ------------------------------------------------------------------------------------------ context managers as handlers
+_BASE_ONLY = {"BaseException", "KeyboardInterrupt", "SystemExit", "GeneratorExit", "CancelledError", "asyncio.CancelledError",
+              "asyncio.exceptions.CancelledError"}
+
+
+def _exc_names_bound(fi: FuncInfo, e: ast.AST | None, bind=None, depth: int = 0) -> set[str]:
+    """_exc_names, where a class expression that is a parameter of fi (a context manager taking the classes it handles as
+    arguments) denotes what the call `bind` = (caller, {parameter: argument}) passes for it."""
+    if e is None or bind is None or depth > 4:
+        return _exc_names(fi, e)
+    e = strip_cast(e)
+    if isinstance(e, (ast.Tuple, ast.List)):
+        out: set[str] = set()
+        for x in e.elts:
+            out |= _exc_names_bound(fi, x.value if isinstance(x, ast.Starred) else x, bind, depth + 1)
+        return out
+    if isinstance(e, ast.Name) and is_param(fi, e.id) and not local_defs(fi, e.id):
+        caller, mapping = bind
+        return _exc_names(caller, mapping[e.id]) if e.id in mapping else {e.id}
+    return _exc_names(fi, e)
+
+
+def _is_cm_decorator(t: FuncInfo, asynchronous: bool) -> bool:
+    want = "contextlib.asynccontextmanager" if asynchronous else "contextlib.contextmanager"
+    for d in getattr(t.node, "decorator_list", []):
+        c = chain(d)
+        if c is None:
+            continue
+        head_, _, rest = c.partition(".")
+        imp = t.module.imports.get(head_)
+        full = ".".join(x for x in (*(imp or ()), rest) if x) if imp is not None else c
+        if full == want:
+            return True
+    return False
+
+
+def _cm_of(repo, fi: FuncInfo, ce: ast.AST, asynchronous: bool, depth: int = 0):
+    """what `with <ce>:` enters, when it is something written in the library: ("class", ClassInfo, (caller, ctor call) | None) for an
+    object with __enter__/__exit__, ("gen", FuncInfo, (caller, call)) for a @contextmanager generator function; None otherwise.  A
+    local that holds the manager, a typed attribute and a plain factory that returns one on every path are followed."""
+    if repo is None or depth > 3:
+        return None
+    ce = strip_cast(resolve(fi, strip_cast(ce)))
+    if isinstance(ce, ast.Call):
+        k = repo.resolve_class_expr(fi.module, ce.func)
+        if k is not None:
+            return ("class", k, (fi, ce))
+        ts = [t for t in repo.resolve_call(fi, ce) if not _is_abstract(t)]
+        if len(ts) != 1 or isinstance(ts[0].node, ast.Lambda):
+            return None
+        t = ts[0]
+        if _is_cm_decorator(t, asynchronous):
+            return ("gen", t, (fi, ce))
+        if t.is_async or t.node.decorator_list or any(isinstance(n, (ast.Yield, ast.YieldFrom)) for n in walk_no_nested(t.node)):
+            return None
+        rets = [r for r in walk_no_nested(t.node) if isinstance(r, ast.Return)]
+        got = [_cm_of(repo, t, r.value, asynchronous, depth + 1) if r.value is not None else None for r in rets]
+        if got and all(g is not None and g[0] == got[0][0] and g[1] is got[0][1] for g in got):
+            # the manager is built inside the factory: its constructor arguments are in the factory's terms, not the caller's
+            return (got[0][0], got[0][1], None)
+        return None
+    if isinstance(ce, (ast.Name, ast.Attribute)):
+        k = repo.type_of_expr(fi, ce)
+        if k is not None and (k.lookup("__aexit__" if asynchronous else "__exit__") is not None):
+            return ("class", k, None)
+    return None
+
+
+def _with_item_handlers(fi: FuncInfo, w: ast.AST, it: ast.withitem, _depth: int = 0) -> set[str]:
+    """
+    The exception classes (canonical names, "*" for Exception / BaseException) that `with <item>:` keeps from leaving the block as
+    they are, when the item is a context manager written in the library - i.e. the handlers of the try statement the block stands
+    for:  a @contextmanager generator with its single `yield` in the body of `try: yield / except E:` is `try: <block> / except E:`
+    (the exception is raised at the yield);  an object whose __exit__ returns a true value (or raises something else) on EVERY path
+    on which the exception passing through is an instance of E is `try: <block> / except E:` as well.
+    """
+    repo = _REPO_BOX[0]
+    if repo is None or _depth > 3:
+        return set()
+    cache = repo.__dict__.setdefault("_c03_with_handlers", {})
+    key = id(it)
+    if key in cache:
+        return cache[key][1]
+    cache[key] = (it, set())                    # recursion guard (the item is kept alive with its id)
+    asynchronous = isinstance(w, ast.AsyncWith)
+    cm = _cm_of(repo, fi, it.context_expr, asynchronous)
+    out: set[str] = set()
+    if cm is not None and cm[0] == "gen":
+        t = cm[1]
+        ys = [n for n in walk_no_nested(t.node) if isinstance(n, (ast.Yield, ast.YieldFrom))]
+        if len(ys) == 1 and isinstance(ys[0], ast.Yield) and t.is_async == asynchronous:
+            m = _bind_args(t, cm[2][1]) if cm[2] is not None else None
+            # (without a binding a handler class that is a parameter stays a name that matches nothing)
+            out = _handlers_around(ys[0], t, (cm[2][0], m) if m is not None else (t, {}), _depth + 1)
+    elif cm is not None:
+        out = _exit_handles(repo, cm[1], cm[2], asynchronous)
+    cache[key] = (it, out)
+    return out
+
+
+def _derives_from_exception(repo, name: str) -> bool:
+    if name in _BASE_ONLY:
+        return False
+    k = repo.try_cls(name.split(".")[-1])
+    if k is not None:
+        bases = set(k.all_base_names())
+        if bases & _BASE_ONLY and "Exception" not in bases:
+            return False
+    return True
+
+
+def _exit_handles(repo, k, ctor, asynchronous: bool) -> set[str]:
+    ex = k.lookup("__aexit__" if asynchronous else "__exit__")
+    if ex is None or isinstance(ex.node, ast.Lambda) or ex.is_async != asynchronous or ex.node.decorator_list:
+        return set()
+    a = ex.node.args
+    pos = [p.arg for p in a.posonlyargs + a.args]
+    if len(pos) < 4:
+        return set()                             # (self, *args): what is tested cannot be told apart
+    me, et, ev, tb = pos[:4]
+    if any(local_defs(ex, p) for p in (me, et, ev, tb)):
+        return set()
+    from ..cfg import CFG
+    cfgs = repo.__dict__.setdefault("_c03_exit_cfgs", {})
+    if id(ex.node) not in cfgs:
+        cfgs[id(ex.node)] = (ex.node, CFG(ex.node))
+    cfg = cfgs[id(ex.node)][1]
+
+    def class_names(c: ast.AST) -> set[str]:
+        c = strip_cast(c)
+        if isinstance(c, ast.Attribute) and isinstance(c.value, ast.Name) and c.value.id == me:
+            # `self.handled`, stored once (in __init__, from a constructor argument) and never again
+            init = k.lookup("__init__")
+            stores_ = [(m, n) for m in k.methods.values() for n in ast.walk(m.node)
+                       if isinstance(n, ast.Attribute) and n.attr == c.attr and isinstance(n.ctx, (ast.Store, ast.Del))]
+            if ctor is None or init is None or len(stores_) != 1 or stores_[0][0] is not init or k.lookup_attr(c.attr) is not None:
+                return {norm(c)}
+            st = enclosing_stmt(stores_[0][1])
+            if not (isinstance(st, (ast.Assign, ast.AnnAssign)) and st.value is not None and isinstance(parent(stores_[0][1]), (ast.Assign, ast.AnnAssign))
+                    and enclosing_function_node(st) is init.node and parent(st) is init.node):
+                return {norm(c)}
+            m = _bind_ctor(init, ctor[1])
+            return _exc_names_bound(init, st.value, (ctor[0], m)) if m is not None else {norm(c)}
+        return _exc_names(ex, c)
+
+    def covers(d: set[str], s: frozenset) -> bool:
+        if all(x in d for x in s):
+            return True
+        if "BaseException" in d:
+            return True
+        return "Exception" in d and all(_derives_from_exception(repo, x) for x in s)
+
+    def tri(e: ast.AST, s: frozenset):
+        """truth of e while an exception whose class is in s passes through __exit__: True / False / None (unknown)"""
+        e = strip_cast(e)
+        if isinstance(e, ast.Constant):
+            return bool(e.value)
+        if isinstance(e, ast.UnaryOp) and isinstance(e.op, ast.Not):
+            v = tri(e.operand, s)
+            return None if v is None else not v
+        if isinstance(e, ast.BoolOp):
+            vs = [tri(v, s) for v in e.values]
+            if isinstance(e.op, ast.And):
+                return False if any(v is False for v in vs) else True if all(v is True for v in vs) else None
+            return True if any(v is True for v in vs) else False if all(v is False for v in vs) else None
+        if isinstance(e, ast.Compare) and len(e.ops) == 1 and isinstance(e.ops[0], (ast.Is, ast.IsNot)):
+            l, r = strip_cast(e.left), strip_cast(e.comparators[0])
+            for x, y in ((l, r), (r, l)):
+                if isinstance(x, ast.Name) and x.id in (et, ev, tb) and isinstance(y, ast.Constant) and y.value is None:
+                    return isinstance(e.ops[0], ast.IsNot)
+            return None
+        if isinstance(e, ast.Name) and e.id == et:
+            return True                          # a class object is true
+        if isinstance(e, ast.Call) and not e.keywords and len(e.args) == 2 and isinstance(strip_cast(e.args[0]), ast.Name):
+            subj = strip_cast(e.args[0]).id
+            if (chain(e.func) == "issubclass" and subj == et) or (chain(e.func) == "isinstance" and subj == ev):
+                return True if covers(class_names(e.args[1]), s) else None
+        return None
+
+    tested = [frozenset(class_names(c.args[1])) for c in calls(ex) if chain(c.func) in ("issubclass", "isinstance") and len(c.args) == 2]
+    out: set[str] = set()
+    for s in [*tested, frozenset({"BaseException"})]:
+        if not s:
+            continue
+
+        def cut(u, v, lab, s=s):
+            if u.kind in ("cond", "loop") and lab in (True, False) and u.ast is not None:
+                val = tri(u.ast, s)
+                return val is not None and val != lab
+            return False
+        r = cfg.reach(cut_edge=cut)
+        ok, some = True, False
+        for u, lab in cfg.exit.pred:
+            if u not in r or cut(u, cfg.exit, lab):
+                continue
+            if u.kind == "stmt" and isinstance(u.ast, ast.Return) and u.ast.value is not None \
+                    and tri(resolve(ex, u.ast.value), s) is True:
+                some = True
+            else:
+                ok = False                       # falls off the end / returns something that may be false: the exception goes on
+        for u, lab in cfg.raise_exit.pred:
+            if u in r and u.kind == "stmt" and isinstance(u.ast, ast.Raise):
+                if u.ast.exc is None:
+                    ok = False
+                else:
+                    some = True                  # replaced by another exception, like `except E: raise Other(..) from e`
+        if ok and some:
+            out |= {"*"} if s & {"Exception", "BaseException"} else set(s)
+    return out
+
+
+def _bind_ctor(init: FuncInfo, call: ast.Call):
+    """K(a, b) runs K.__init__(<new object>, a, b)"""
+    fake = ast.Call(func=ast.Attribute(value=ast.Name(id="self", ctx=ast.Load()), attr="__init__", ctx=ast.Load()),
+                    args=list(call.args), keywords=list(call.keywords))
+    return _bind_args(init, fake)
 
 
 def _handled(node: ast.AST, fi: FuncInfo, names: tuple[str, ...], inherited=()) -> bool:
@@ -1649,6 +1883,201 @@ def _check_removals(ctx: Ctx, fi: FuncInfo, cfg, via: str, inherited=()) -> None
                   "dominating membership test, a default, or a handler: when the key is absent the KeyError propagates through "
                   "on_packet / notify_listeners into the transport and the remaining listeners never get the datagram",
                   [str(guard)] if guard is not None else None)
+
+
+# ------------------------------------------------------------------------------------------ reads of the routing tables
+_TABLE_OWNER = ("CryptoEndpoint", "ipv8/messaging/anonymization/crypto.py")
+
+
+def _routing_tables(ctx: Ctx) -> set[str]:
+    """attribute names of the crypto endpoint that are plain dicts keyed by circuit id: `self.x: dict[int, ..] = {}` in its __init__"""
+    cache = ctx.__dict__.setdefault("_c03_routing_tables", None)
+    if cache is not None:
+        return cache
+    out: set[str] = set()
+    k = ctx.repo.try_cls(*_TABLE_OWNER)
+    for c in ([k, *k.all_subclasses()] if k is not None else []):
+        init = c.methods.get("__init__")
+        if init is None:
+            continue
+        for n in walk_no_nested(init.node):
+            if isinstance(n, ast.AnnAssign) and isinstance(n.target, ast.Attribute) and chain(n.target.value) == "self" and n.value is not None:
+                ann = norm(n.annotation).replace("typing.", "").strip("'\"")
+                v = strip_cast(n.value)
+                plain = (isinstance(v, ast.Dict) and not v.keys) or (isinstance(v, ast.Call) and chain(v.func) == "dict" and not v.args)
+                if plain and ann.lower().startswith("dict[int,"):
+                    out.add(n.target.attr)
+    ctx.__dict__["_c03_routing_tables"] = out
+    return out
+
+
+def _is_routing_table(ctx: Ctx, fi: FuncInfo, e: ast.AST, depth: int = 0) -> bool:
+    """e denotes one of the routing tables: `self.<table>` in the endpoint, `<endpoint>.<table>`, an attribute of another class that
+    is bound to one (`self.relay_from_to = self.crypto_endpoint.relays`), or a local alias of any of these"""
+    tables = _routing_tables(ctx)
+    e = strip_cast(resolve(fi, strip_cast(e)))
+    if not isinstance(e, ast.Attribute) or depth > 2:
+        return False
+    owner = ctx.repo.try_cls(*_TABLE_OWNER)
+    if e.attr in tables:
+        if chain(e.value) == "self" and fi.cls is not None and owner is not None and (fi.cls is owner or owner in fi.cls.mro()):
+            return True
+        t = ctx.repo.type_of_expr(fi, e.value)
+        if t is not None and owner is not None and (t is owner or owner in t.mro()):
+            return True
+        if isinstance(e.value, ast.Attribute) and "crypto" in e.value.attr and "endpoint" in e.value.attr:
+            return True
+    if chain(e.value) == "self" and fi.cls is not None:
+        # an attribute of this class that is only ever bound to a table of the endpoint
+        vals = [n.value for c in fi.cls.mro() for m in c.methods.values() for n in walk_no_nested(m.node)
+                if isinstance(n, ast.Assign) and any(isinstance(t_, ast.Attribute) and t_.attr == e.attr and chain(t_.value) == "self" for t_ in n.targets)]
+        vals = [strip_cast(v) for v in vals]
+        return bool(vals) and all(isinstance(v, ast.Attribute) and v.attr in tables and chain(v.value) not in (None, "self") for v in vals)
+    return False
+
+
+def _table_read_sites(ctx: Ctx, fi: FuncInfo):
+    """(node, table expr, key expr) for every read by key that raises KeyError when the key is absent"""
+    for n in walk_no_nested(fi.node):
+        if isinstance(n, ast.Subscript) and isinstance(n.ctx, ast.Load) and not isinstance(n.slice, ast.Slice) \
+                and _is_routing_table(ctx, fi, n.value):
+            # (`t[k] += 1` / `del t[k]` have Store / Del context: the removal rule and the read of an augmented assignment below)
+            yield n, n.value, n.slice
+        elif isinstance(n, ast.AugAssign) and isinstance(n.target, ast.Subscript) and not isinstance(n.target.slice, ast.Slice) \
+                and _is_routing_table(ctx, fi, n.target.value):
+            yield n.target, n.target.value, n.target.slice
+        elif isinstance(n, ast.Call) and isinstance(n.func, ast.Attribute) and n.func.attr == "__getitem__" and len(n.args) == 1 \
+                and _is_routing_table(ctx, fi, n.func.value):
+            yield n, n.func.value, n.args[0]
+        elif isinstance(n, ast.Call) and isinstance(strip_cast(n.func), ast.Call) and (chain(strip_cast(n.func).func) or "").split(".")[-1] == "itemgetter" \
+                and len(n.args) == 1 and len(strip_cast(n.func).args) == 1 and _is_routing_table(ctx, fi, n.args[0]):
+            yield n, n.args[0], strip_cast(n.func).args[0]
+
+
+def _table_killers(fi: FuncInfo, cfg, cont: ast.AST, key: ast.AST) -> list:
+    """CFG nodes after which `key in cont` need no longer hold: a removal from the table (by any key), clear / popitem, the table
+    being rebound, or (a part of) the key expression being assigned"""
+    out = []
+    for n2, c2, _, _ in _removal_sites(fi):
+        if _same_container(fi, c2, cont):
+            out += cfg.nodes_for(n2)
+    for c in calls(fi):
+        if isinstance(c.func, ast.Attribute) and c.func.attr in ("clear", "popitem", "pop") and _same_container(fi, c.func.value, cont):
+            out += cfg.nodes_for(c)
+    kc = {chain(x) for x in ast.walk(key) if isinstance(x, (ast.Name, ast.Attribute)) and chain(x) is not None}
+    kc |= {chain(x) for x in ast.walk(resolve(fi, key)) if isinstance(x, (ast.Name, ast.Attribute)) and chain(x) is not None}
+    kc |= {chain(x) for x in ast.walk(_every_def(fi, key)) if isinstance(x, (ast.Name, ast.Attribute)) and chain(x) is not None}
+    cc = chain(resolve(fi, cont))
+    for n in walk_no_nested(fi.node):
+        tg = n.targets if isinstance(n, (ast.Assign, ast.Delete)) else [n.target] if isinstance(n, (ast.AugAssign, ast.AnnAssign, ast.NamedExpr, ast.For)) else []
+        for t in tg:
+            for x in ast.walk(t):
+                if isinstance(x, (ast.Name, ast.Attribute)) and isinstance(x.ctx, (ast.Store, ast.Del)) and chain(x) is not None \
+                        and (chain(x) in kc or chain(x) == cc):
+                    # (the single definition of an alias local is where the alias starts, not a change of it)
+                    if isinstance(x, ast.Name) and single_def(fi, x.id) is not None:
+                        continue
+                    out += cfg.nodes_for(n)
+    return out
+
+
+def _every_def(fi: FuncInfo, e: ast.AST, depth: int = 0) -> ast.AST:
+    """a local all of whose definitions assign the same call-free expression (`circuit_id = cell.circuit_id` written in two branches)
+    denotes that expression"""
+    e = strip_cast(e)
+    if depth < 3 and isinstance(e, ast.Name) and not is_param(fi, e.id):
+        defs = local_defs(fi, e.id)
+        if defs and all(v is not None and idx is None and not any(isinstance(x, (ast.Call, ast.Await, ast.NamedExpr)) for x in ast.walk(v))
+                        for _, v, idx in defs) and len({norm(v) for _, v, _ in defs}) == 1:
+            return _every_def(fi, defs[0][1], depth + 1)
+    return e
+
+
+def _same_key(fi: FuncInfo, a: ast.AST, b: ast.AST) -> bool:
+    return same_resolved(fi, a, b) or norm(_every_def(fi, a)) == norm(_every_def(fi, b))
+
+
+def _membership_at(ctx: Ctx, fi: FuncInfo, cfg, site: ast.AST, cont: ast.AST, key: ast.AST):
+    """a fact `key in cont` that dominates `site` and still holds there (nothing on the way from the test to the site can take the key
+    out of the table or change the key); None when there is none"""
+    sn = cfg.nodes_for(site)
+    if not sn:
+        return None
+    killers = None
+    for f in _decisions(ctx).facts(fi, cfg, site):
+        if not (f.op == "in" and f.pos and _same_key(fi, f.left, key) and _same_container(fi, f.right, cont)):
+            continue
+        gn = getattr(f, "origin", None) or cfg.by_ast.get(id(f.atom), [])
+        if killers is None:
+            killers = _table_killers(fi, cfg, cont, key)
+        after_guard = cfg.reach([v for g in gn for v, _ in g.succ]) if gn else set(cfg.nodes)
+        if not any(k in after_guard and k not in sn and k not in gn and any(x in cfg.reach([v for v, _ in k.succ], cut_nodes=gn) for x in sn)
+                   for k in killers):
+            return f
+    return None
+
+
+def _membership_from_callers(ctx: Ctx, fi: FuncInfo, site: ast.AST, cont: ast.AST, key: ast.AST, reached_from: dict, roots: set,
+                             depth: int = 0, seen: tuple = ()):
+    """`key in cont` holds at EVERY call through which the region reaches fi (in the caller's terms, arguments for parameters), and
+    nothing between the entry of fi and the site invalidates it.  Returns a description or None."""
+    if depth > 3 or fi in roots or fi in seen or not reached_from.get(fi):
+        return None
+    cfg = ctx.cfg(fi)
+    sn = cfg.nodes_for(site) if site is not None else [cfg.exit]
+    before = [k for k in _table_killers(fi, cfg, cont, key) if k not in sn and any(x in cfg.reach([v for v, _ in k.succ]) for x in sn)]
+    if before:
+        return None
+    # the key and the table must be expressible at the call: parameters, `self`, and single-assignment locals over them whose
+    # definition dominates... (expanded by _translate_expr)
+    how = []
+    for h, c in reached_from[fi]:
+        m = _bind_args(fi, c)
+        if m is None:
+            return None
+        k2, t2 = _translate_expr(fi, key, m), _translate_expr(fi, cont, m)
+        if k2 is None or t2 is None:
+            return None
+        for x_ in (k2, t2):
+            ast.copy_location(x_, c)
+            ast.fix_missing_locations(x_)
+        hcfg = ctx.cfg(h)
+        g = _membership_at(ctx, h, hcfg, c, t2, k2)
+        if g is None and not protected(c, h) and not _handled(c, h, ("KeyError", "LookupError")):
+            up = _membership_from_callers(ctx, h, c, t2, k2, reached_from, roots, depth + 1, (*seen, fi))
+            if up is None:
+                return None
+            how.append(up)
+        else:
+            how.append(f"`{g}` at the call in {h.qualname}" if g is not None else f"KeyError handled around the call in {h.qualname}")
+    return "; ".join(sorted(set(how)))
+
+
+def _check_table_reads(ctx: Ctx, fi: FuncInfo, via: str, inherited, reached_from: dict, roots: set) -> None:
+    sites = list(_table_read_sites(ctx, fi))
+    if not sites:
+        return
+    cfg = ctx.cfg(fi)
+    for node, cont, key in sites:
+        if protected(node, fi):
+            continue
+        if _handled(node, fi, ("KeyError", "LookupError"), inherited):
+            ctx.instance("table-read-guarded", fi.where, f"`{norm(node)[:60]}` inside a handler for KeyError", line=node.lineno)
+            continue
+        if const_value(key) is not NOCONST_:
+            raise AnalysisError(f"undecided: constant key in routing-table read `{norm(node)}` in {fi.qualname}")
+        guard = _membership_at(ctx, fi, cfg, node, cont, key)
+        how = f"dominated by `{guard}`" if guard is not None else None
+        if how is None:
+            up = _membership_from_callers(ctx, fi, node, cont, key, reached_from, roots)
+            how = f"every call that reaches it establishes the key: {up}" if up is not None else None
+        ctx.check(how is not None, "table-read-guarded", fi, node,
+                  f"`{norm(node)[:60]}` {how} (reached via {via})",
+                  f"`{norm(node)[:80]}` on the unprotected receive path (reached via {via}) reads the routing table `{norm(cont)}` by a key that "
+                  "no dominating, still-valid membership test (here or at every call), `.get()` or KeyError handler covers: once the entry is gone "
+                  "(e.g. do_remove dropped one half of an e2e-linked relay pair) the next valid cell raises KeyError through process_cell / on_packet / "
+                  "notify_listeners into the transport and the remaining listeners never get the datagram",
+                  [how] if how else None)
 
 
 def _callee_ensures(ctx: Ctx, la: "_Lengths", fi: FuncInfo, call: ast.Call, depth: int = 0) -> dict:
@@ -1726,6 +2155,7 @@ def rule_bounds(ctx: Ctx) -> None:
     inner_targets: dict[int, list[FuncInfo]] = {}          # id(call of `func` in a decorator's wrapper) -> what it runs
     analysed: set = set()
     todo: list = []
+    reached_from: dict[FuncInfo, list[tuple[FuncInfo, ast.Call]]] = {}     # unprotected call sites through which the region reaches a function
 
     def route(t: FuncInfo) -> FuncInfo:
         """the function a call of t runs first: t itself, or the outermost wrapper of its decorators (whose calls of `func` are
@@ -1870,6 +2300,8 @@ def rule_bounds(ctx: Ctx) -> None:
                         newmin[tparams[pi]] = la.min_len(a2, call)[0]
                     elif isinstance(a2, ast.Tuple):
                         pass
+                if not any(c_ is call for _, c_ in reached_from.setdefault(t, [])):
+                    reached_from[t].append((fi, call))
                 old = param_min.get(t)
                 if old is None:
                     param_min[t] = dict(newmin)
@@ -1890,11 +2322,65 @@ def rule_bounds(ctx: Ctx) -> None:
                     if changed and t not in todo:
                         todo.append(t)
     ctx.extra["unprotected_region_functions"] = sorted(f.where for f in analysed)
+    # 1d. subscript reads of the routing tables (raise KeyError when the key is absent): once the region and all its call sites are known
+    roots = {f for f, v in via.items() if v == "entry"}
+    for fi in sorted(analysed, key=lambda f: f.where):
+        _check_table_reads(ctx, fi, via.get(fi, "entry"), caught.get(fi, set()), reached_from, roots)
     ctx.floor("bounds-before-index.region", len(analysed), 12)
     ctx.floor("bounds-before-index.sites", sum(1 for i in ctx.instances if i["rule"].endswith("bounds-before-index")), 5)
 
 
 # ------------------------------------------------------------------------------------------ prefix / containment
+def _may_return_none(repo, g: FuncInfo, call: ast.Call) -> str | None:
+    """why the value of `call` can be None: a callee of the library that is declared `-> X | None` / Optional[X] or has a `return None`,
+    or a dict `.get(k)` without default; None when nothing says so"""
+    f = call.func
+    if isinstance(f, ast.Attribute) and f.attr == "get" and len(call.args) == 1 and not call.keywords:
+        return f"`{norm(f.value)}` has no entry for the key"
+    ts = [t for t in repo.resolve_call(g, call) if not _is_abstract(t)] or _unique_method(repo, call)
+    for t in ts:
+        if isinstance(t.node, ast.Lambda) or t.is_async:
+            continue
+        ann = norm(t.node.returns) if t.node.returns is not None else ""
+        if "None" in [x.strip(" '\"") for x in ann.replace("Optional[", "None|").replace("]", "").split("|")] and ann.strip(" '\"") != "None":
+            return f"{t.qualname} returns None (declared `-> {ann}`)"
+        if any(isinstance(r, ast.Return) and (r.value is None or (isinstance(r.value, ast.Constant) and r.value.value is None))
+               for r in walk_no_nested(t.node)) and any(isinstance(r, ast.Return) and r.value is not None
+                                                        and not (isinstance(r.value, ast.Constant) and r.value.value is None) for r in walk_no_nested(t.node)):
+            return f"{t.qualname} returns None on some path"
+    return None
+
+
+def _optional_dereferences(ctx: Ctx, g: FuncInfo, h: ast.ExceptHandler) -> list:
+    """[(expression, local, why)] for every `local.attr` / `local[..]` / `local(..)` evaluated in the body of handler h where one of
+    the local's definitions is a call whose value can be None and no dominating fact (a truth / `is not None` test of the local,
+    also the short-circuit context of the expression) excludes that"""
+    out = []
+    cfg = ctx.cfg(g)
+    for st in h.body:
+        for x in walk_no_nested(st):
+            base = x.value if isinstance(x, (ast.Attribute, ast.Subscript)) else x.func if isinstance(x, ast.Call) else None
+            if not isinstance(base, ast.Name) or is_param(g, base.id):
+                continue
+            why = None
+            for _, v, idx in local_defs(g, base.id):
+                v = strip_cast(v) if v is not None else None
+                if idx is None and isinstance(v, ast.Call):
+                    why = why or _may_return_none(ctx.repo, g, v)
+            if why is None:
+                continue
+            try:
+                facts = _decisions(ctx).facts(g, cfg, x)
+            except AnalysisError:
+                facts = []
+            known = any((f.op == "truthy" and f.pos and isinstance(f.left, ast.Name) and f.left.id == base.id)
+                        or (f.op == "is" and not f.pos and isinstance(f.left, ast.Name) and f.left.id == base.id
+                            and isinstance(f.right, ast.Constant) and f.right.value is None) for f in facts)
+            if not known:
+                out.append((x, base.id, why))
+    return out
+
+
 def rule_dispatch(ctx: Ctx) -> None:
     repo = ctx.repo
     for clsname, meth, table, rel in (("Community", "on_packet", "self.decode_map", "ipv8/community.py"),
@@ -2065,6 +2551,23 @@ def rule_dispatch(ctx: Ctx) -> None:
             ctx.check(everywhere(g, c, lambda h, n: protected(n, h)), "handler-contained", g, c,
                       f"{clsname}.{meth}: handler invoked inside try/except Exception",
                       "an exception raised by a message handler escapes to the transport")
+        # ... and the body of that catch-all handler - the last line of defence - does not itself dereference a value that may be None
+        # (an AttributeError / TypeError raised there leaves on_packet like an uncontained handler exception would)
+        done: set = set()
+        for g, c in hcalls:
+            cur, pp = c, parent(c)
+            while pp is not None and cur is not g.node:
+                if isinstance(pp, ast.Try) and any(cur is s_ for s_ in pp.body):
+                    for h_ in pp.handlers:
+                        if _catches_all(h_) and id(h_) not in done:
+                            done.add(id(h_))
+                            bad = _optional_dereferences(ctx, g, h_)
+                            ctx.check(not bad, "handler-contained", g, bad[0][0] if bad else h_,
+                                      f"{clsname}.{meth}: the containing handler's own body dereferences nothing that may be None",
+                                      (f"the catch-all handler around the message handler itself evaluates `{norm(bad[0][0])[:60]}` where `{bad[0][1]}` is None "
+                                       f"whenever {bad[0][2]}: the error-reporting path raises AttributeError inside the except block, the exception leaves "
+                                       "on_packet -> notify_listeners -> the transport and the remaining listeners of the datagram are skipped") if bad else "")
+                cur, pp = pp, parent(pp)
         # coroutine results registered with ignore=(Exception,)
         for g in region:
             if g is not fi and g.name == "register_anonymous_task":
@@ -2768,6 +3271,288 @@ def _wire_slices(repo, fi: FuncInfo, data: str, wire: set[str]):
                 yield x, up
 
 
+def _buffer_holders(repo, fi: FuncInfo, data: str):
+    """
+    (local, class, attribute) for every local of fi that is a small reader object built over the buffer: `cur = K(data, offset)`
+    where K's __init__ only stores its parameters, the attribute that receives `data` is written nowhere else (not by a method of
+    K, not by fi), and the object never leaves fi (it is only used as `cur.<attribute>` / `cur.<method>(...)`): then `self.<attribute>`
+    inside K's methods IS the caller's buffer, for the whole life of the object.
+    """
+    out = []
+    for n in walk_no_nested(fi.node):
+        if not (isinstance(n, ast.Assign) and len(n.targets) == 1 and isinstance(n.targets[0], ast.Name)):
+            continue
+        name = n.targets[0].id
+        v = strip_cast(n.value)
+        if not isinstance(v, ast.Call) or single_def(fi, name) is None or local_defs(fi, data):
+            continue
+        k = repo.resolve_class_expr(fi.module, v.func)
+        rec = _record_class(k) if k is not None else None
+        if rec is None or k.lookup("__getattr__") or k.lookup("__setattr__") or k.lookup("__getattribute__"):
+            continue
+        init = k.lookup("__init__")
+        m = _bind_ctor(init, v) if init is not None else None
+        if m is None:
+            continue
+        attrs = [a for p_, a, _ in rec if isinstance(strip_cast(m.get(p_)), ast.Name) and strip_cast(m[p_]).id == data and not a.startswith("\0")]
+        if len(attrs) != 1:
+            continue
+        attr = attrs[0]
+        if any(isinstance(x, ast.Attribute) and x.attr == attr and not isinstance(x.ctx, ast.Load)
+               for c in k.mro() for meth in c.methods.values() if meth is not init for x in ast.walk(meth.node)):
+            continue
+        uses = [x for x in walk_no_nested(fi.node) if isinstance(x, ast.Name) and x.id == name and isinstance(x.ctx, ast.Load)]
+        if any(not isinstance(parent(x), ast.Attribute) or (parent(x).attr == attr and not isinstance(parent(x).ctx, ast.Load)) for x in uses):
+            continue
+        out.append((name, k, attr))
+    return out
+
+
+def _flattened_method(repo, k, m: FuncInfo):
+    """
+    The method m of the record class k with the object's fields as plain variables: `def m(self, a)` that uses self only as
+    `self.<field>` becomes `def m(<fields>, a)` with every `self.<field>` replaced by the name `<field>`.  Inside ONE run of the
+    body this is the same computation (fields are plain attributes: no property / method / class attribute of that name, no
+    __getattr__ hooks; self is used for nothing else, so nobody else can see or change them meanwhile).  None when not applicable.
+    """
+    cache = repo.__dict__.setdefault("_c03_flattened", {})
+    if m in cache:
+        return cache[m]
+    cache[m] = None
+    rec = _record_class(k)
+    a = m.node.args
+    pos = [p_.arg for p_ in a.posonlyargs + a.args]
+    if rec is None or isinstance(m.node, ast.Lambda) or m.is_async or not pos or m.node.decorator_list or a.posonlyargs:
+        return None
+    me = pos[0]
+    fields = [f for _, f, _ in rec if not f.startswith("\0")]
+    if any(k.lookup(f) is not None or k.lookup_attr(f) is not None for f in fields):
+        return None
+    taken = set(m.params()) | {x.id for x in ast.walk(m.node) if isinstance(x, ast.Name)}
+    if set(fields) & taken:
+        return None
+    from ..model import clone, set_parents
+    node = clone(m.node)
+    set_parents(node)
+    for x in list(ast.walk(node)):
+        if isinstance(x, ast.Name) and x.id == me:
+            px = parent(x)
+            if not (isinstance(px, ast.Attribute) and px.value is x and px.attr in fields):
+                return None
+
+    class Flat(ast.NodeTransformer):
+        def visit_Attribute(self, x):
+            if isinstance(x.value, ast.Name) and x.value.id == me:
+                return ast.copy_location(ast.Name(id=x.attr, ctx=x.ctx), x)
+            return self.generic_visit(x)
+    node = Flat().visit(node)
+    node.args.args = [*[ast.copy_location(ast.arg(arg=f, annotation=None), node) for f in fields], *node.args.args[1:]]
+    ast.fix_missing_locations(node)
+    set_parents(node)
+    flat = FuncInfo(m.name, m.qualname, node, m.module, None)
+    node._info = flat
+    cache[m] = flat
+    return flat
+
+
+def _holder_reads_wire(repo, fi: FuncInfo, e: ast.AST, holders) -> bool:
+    """e contains `cur.method(...)` on a reader object over the buffer whose method reads integers out of the buffer"""
+    for x in ast.walk(e):
+        if isinstance(x, ast.Call) and isinstance(x.func, ast.Attribute) and isinstance(x.func.value, ast.Name):
+            for name, k, attr in holders:
+                if x.func.value.id == name:
+                    m = k.lookup(x.func.attr)
+                    flat = _flattened_method(repo, k, m) if m is not None else None
+                    if flat is not None and any(_is_wire_read(y, attr) for y in walk_no_nested(flat.node)):
+                        return True
+    return False
+
+
+def _straight_line_positions(flat: FuncInfo, fields: list[str], attr: str):
+    """For a flattened reader method whose body is straight-line code: (value of every field at the end, {id(expr): value of the
+    expression where it stands}) as polynomials over the fields' initial values and the parameters; None when the body branches or
+    assigns something that is not integer arithmetic to a position field that is needed."""
+    from ..poly import Poly, eval_expr
+    env = {p_: Poly.var(p_) for p_ in flat.params()}
+    at: dict[int, object] = {}
+    body = [st for st in flat.node.body if not (isinstance(st, ast.Expr) and isinstance(st.value, ast.Constant))]
+
+    def ev(e):
+        try:
+            return eval_expr(e, env, lambda x: None)
+        except AnalysisError:
+            return None
+    for st in body:
+        if isinstance(st, (ast.If, ast.For, ast.While, ast.Try, ast.With, ast.Match, ast.AsyncFor, ast.AsyncWith)):
+            return None
+        for x in ast.walk(st):
+            if isinstance(x, ast.Subscript) and isinstance(x.value, ast.Name) and x.value.id == attr and isinstance(x.slice, ast.Slice) and x.slice.upper is not None:
+                at[id(x)] = ev(x.slice.upper)
+            if isinstance(x, ast.Call) and call_name(x) == "unpack_from" and chain(x.func) in ("unpack_from", "struct.unpack_from") and len(x.args) >= 2:
+                at[id(x)] = ev(x.args[2]) if len(x.args) > 2 else Poly.const(0)
+        if isinstance(st, ast.Assign) and len(st.targets) == 1:
+            t, v = st.targets[0], st.value
+            if isinstance(t, ast.Name):
+                env[t.id] = ev(v)
+            elif isinstance(t, ast.Tuple) and isinstance(v, ast.Tuple) and len(t.elts) == len(v.elts) and all(isinstance(e_, ast.Name) for e_ in t.elts):
+                vals = [ev(e_) for e_ in v.elts]
+                for e_, val in zip(t.elts, vals):
+                    env[e_.id] = val
+            else:
+                for nm in names_in(t):
+                    env[nm] = None
+        elif isinstance(st, ast.AugAssign) and isinstance(st.target, ast.Name):
+            cur, d = env.get(st.target.id), ev(st.value)
+            env[st.target.id] = (cur + d if isinstance(st.op, ast.Add) else cur - d) if cur is not None and d is not None \
+                and isinstance(st.op, (ast.Add, ast.Sub)) else None
+        elif isinstance(st, (ast.AnnAssign, ast.AugAssign, ast.Delete)):
+            for nm in names_in(getattr(st, "target", st)):
+                env[nm] = None
+    return {f: env.get(f) for f in fields}, at
+
+
+def _followed_by_fixed_read(ctx: Ctx, fi: FuncInfo, call: ast.Call, holder: str, k, attr: str, flat: FuncInfo, sl: ast.Subscript) -> bool:
+    """
+    Idiom 3 for a reader object: the method that takes the piece leaves the object's position exactly at the end of the piece, and on
+    every normal way on from `call` the next thing done with the reader is a method that starts with a fixed-format unpack_from (of
+    at least one byte) at the object's position: a message cut off inside the piece makes that read raise struct.error.
+    """
+    repo = ctx.repo
+    fields = [f for _, f, _ in (_record_class(k) or []) if not f.startswith("\0")]
+    got = _straight_line_positions(flat, fields, attr)
+    if got is None or got[1].get(id(sl)) is None:
+        return False
+    end_fields, at = got
+    pos_fields = [f for f in fields if f != attr and end_fields.get(f) is not None and (end_fields[f] - at[id(sl)]).is_zero()]
+    if not pos_fields:
+        return False
+    cfg = ctx.cfg(fi)
+    uses = [x for x in walk_no_nested(fi.node) if isinstance(x, ast.Name) and x.id == holder and isinstance(x.ctx, ast.Load)]
+    good, other = [], []
+    for x in uses:
+        pa = parent(x)
+        c2 = parent(pa) if isinstance(pa, ast.Attribute) else None
+        if c2 is call or pa is call.func:
+            continue
+        is_read = False
+        if isinstance(c2, ast.Call) and c2.func is pa:
+            m2 = k.lookup(pa.attr)
+            f2 = _flattened_method(repo, k, m2) if m2 is not None else None
+            g2 = _straight_line_positions(f2, fields, attr) if f2 is not None else None
+            if g2 is not None:
+                ups = [y for y in ast.walk(f2.node) if isinstance(y, ast.Call) and id(y) in g2[1] and call_name(y) == "unpack_from"]
+                b2 = _bind_args(m2, c2) or {}
+                if ups:
+                    first = min(ups, key=lambda y: (y.lineno, y.col_offset))
+                    fmt = first.args[0]
+                    fmt = b2.get(fmt.id, fmt) if isinstance(fmt, ast.Name) else fmt
+                    size = _fold(repo, fi.module, fi.cls, ast.Call(func=ast.Name(id="calcsize", ctx=ast.Load()), args=[fmt], keywords=[]), fi)
+                    p0 = g2[1][id(first)]
+                    is_read = isinstance(size, int) and size >= 1 and p0 is not None and any((p0 - type(p0).var(f)).is_zero() for f in pos_fields) \
+                        and chain(first.args[1]) == attr \
+                        and not any(isinstance(y, ast.Subscript) and isinstance(y.value, ast.Name) and y.value.id == attr and y.lineno < first.lineno
+                                    for y in ast.walk(f2.node))
+        (good if is_read else other).extend(cfg.nodes_for(c2 if isinstance(c2, ast.Call) and c2.func is pa else x))
+    start = cfg.nodes_for(call)
+    if not good or not start:
+        return False
+    # every normal way on from the call reaches such a read, and reaches it before anything else is done with the reader
+    for s0 in start:
+        if not cfg.always_followed_by(s0, good):
+            return False
+        r = cfg.reach([v for v, lab in s0.succ if lab != "exc"], cut_nodes=good, follow_exc=False)
+        if any(o in r and o not in start for o in other):
+            return False
+    return True
+
+
+def _check_holder_slices(ctx: Ctx, c, fi: FuncInfo, data: str, wire: set[str]) -> int:
+    """The slice moved into a method of a private reader / cursor object that holds the buffer and tracks the offset:
+    `cur = _Cursor(data, offset)` ... `cur.take(cur.read_length(..))`.  Same instance when the slice end depends on a wire value (an
+    argument of the call that is wire-derived, or the object's position after a wire-dependent advance); honoured when the method
+    itself bounds the end against the length of the buffer it holds on every path to the slice."""
+    repo = ctx.repo
+    holders = _buffer_holders(repo, fi, data)
+    if not holders:
+        return 0
+    # locals of the caller that hold what a reader method read from the wire
+    wire = set(wire)
+    changed = True
+    while changed:
+        changed = False
+        for st in walk_no_nested(fi.node):
+            if isinstance(st, (ast.Assign, ast.AnnAssign, ast.AugAssign, ast.NamedExpr)) and getattr(st, "value", None) is not None:
+                if _holder_reads_wire(repo, fi, st.value, holders) or (names_in(st.value) & wire):
+                    for t in (st.targets if isinstance(st, ast.Assign) else [st.target]):
+                        for nm in names_in(t):
+                            if nm not in wire and nm != data and nm not in {h for h, _, _ in holders}:
+                                wire.add(nm)
+                                changed = True
+    any_wire_read = any(_holder_reads_wire(repo, fi, call, holders) for call in calls(fi))
+    n = 0
+    for call in calls(fi):
+        if not (isinstance(call.func, ast.Attribute) and isinstance(call.func.value, ast.Name)):
+            continue
+        for name, k, attr in holders:
+            if call.func.value.id != name:
+                continue
+            m = k.lookup(call.func.attr)
+            if m is None:
+                continue
+            flat = _flattened_method(repo, k, m)
+            slices = []
+            src = flat if flat is not None else m
+            for x in walk_no_nested(src.node):
+                if isinstance(x, ast.Subscript) and isinstance(x.ctx, ast.Load) and (
+                        (flat is not None and isinstance(x.value, ast.Name) and x.value.id == attr)
+                        or (flat is None and isinstance(x.value, ast.Attribute) and x.value.attr == attr)):
+                    b = _slice_bounds(repo, src, x)
+                    if b is not None and b[1] is not None:
+                        slices.append((x, b[1]))
+            if not slices:
+                continue
+            if flat is None:
+                raise AnalysisError(f"undecided: {k.name}.{m.name} slices the buffer it holds but uses its object in a way that is not followed")
+            fields = [f for _, f, _ in (_record_class(k) or []) if not f.startswith("\0")]
+            mutable = {x.attr for c2 in k.mro() for meth in c2.methods.values() if meth.name != "__init__" for x in ast.walk(meth.node)
+                       if isinstance(x, ast.Attribute) and not isinstance(x.ctx, ast.Load) and x.attr in fields}
+            bind = _bind_args(m, call) or {}
+            for sl, upper in slices:
+                dep = set(names_in(upper))
+                grow = True
+                while grow:
+                    grow = False
+                    for st in walk_no_nested(flat.node):
+                        if isinstance(st, (ast.Assign, ast.AnnAssign, ast.AugAssign)) and getattr(st, "value", None) is not None:
+                            tg = set()
+                            for t in (st.targets if isinstance(st, ast.Assign) else [st.target]):
+                                tg |= names_in(t)
+                            if tg & dep and not names_in(st.value) <= dep:
+                                dep |= names_in(st.value)
+                                grow = True
+                by_arg = any(p_ in dep and (names_in(a_) & wire or _holder_reads_wire(repo, fi, a_, holders)
+                                            or any(_is_wire_read(y, data) for y in ast.walk(a_)))
+                             for p_, a_ in bind.items() if p_ not in ("self", "cls"))
+                # the object's position after an earlier wire-dependent advance (`cur.skip(n)` ... `cur.take(4)`)
+                by_state = bool(dep & mutable) and any_wire_read
+                in_method = any(_is_wire_read(y, attr) for y in ast.walk(upper)) or bool(dep & _wire_locals(repo, flat, attr))
+                if not (by_arg or by_state or in_method):
+                    continue
+                n += 1
+                ok = _end_bounded_on_every_path(ctx, flat, ctx.cfg(flat), sl, attr, upper=upper, pm_cls=c, symbolic_params=True)
+                how = f"inside {k.name}.{m.name}"
+                if not ok and isinstance(sl.slice, ast.Slice):
+                    ok = _followed_by_fixed_read(ctx, fi, call, name, k, attr, flat, sl)
+                    how = "the next use of the reader is a fixed-format unpack_from at the end of the piece, which raises on truncation"
+                ctx.check(ok, "length-honoured", fi, call,
+                          f"{c.name}.unpack: wire length in `{norm(sl)}` of {k.name}.{m.name} (reader object over the buffer) is checked against "
+                          f"the buffer ({how})",
+                          f"{c.name}.unpack hands a wire-supplied length to {k.name}.{m.name}, which slices `{norm(sl)}` of the buffer it holds without "
+                          "the end ever being compared with the buffer length: a truncated message is silently accepted and the returned offset lies "
+                          "outside the buffer")
+    return n
+
+
 def rule_length_honoured(ctx: Ctx) -> None:
     n = 0
     repo = ctx.repo
@@ -2829,6 +3614,33 @@ def rule_length_honoured(ctx: Ctx) -> None:
                                   f"{c.name}.unpack: wire length in `{norm(sl)}` of {t.qualname} is checked against the buffer ({how})",
                                   f"{c.name}.unpack hands a wire-supplied length to {t.qualname}, which slices `{norm(sl)}` without it ever being "
                                   "compared with the buffer length: a truncated message is silently accepted and the returned offset lies outside the buffer")
+        n += _check_holder_slices(ctx, c, fi, data, wire)
+        # a piece of FIXED size taken out of the buffer by slicing (`data[offset:offset + self.size]`): unlike unpack_from a slice never
+        # fails, so the same comparison with the buffer length is needed before the piece is reported as decoded
+        wired = {id(x) for x, _ in _wire_slices(repo, fi, data, wire)}
+        for x in walk_no_nested(fi.node):
+            if not (isinstance(x, ast.Subscript) and isinstance(x.ctx, ast.Load) and isinstance(x.value, ast.Name)
+                    and x.value.id in _buffer_names(fi, data) and id(x) not in wired):
+                continue
+            b = _slice_bounds(repo, fi, x)
+            if b is None or b[1] is None or not names_in(b[1]):
+                continue
+            ok, how = _length_checked(ctx, fi, cfg, x, data, wire | names_in(b[1]), upper=b[1])
+            if not ok:
+                # nothing in the decoder looks at a length at all: decided; otherwise some other way of checking may be in use
+                st_ = enclosing_stmt(x)
+                held = {t_.id for t_ in getattr(st_, "targets", []) if isinstance(t_, ast.Name)} | _buffer_names(fi, data)
+                looks = [y for y in walk_no_nested(fi.node) if isinstance(y, ast.Call) and chain(y.func) == "len" and y.args
+                         and (names_in(y.args[0]) & held)]
+                if looks or any(call_name(y) not in ("append", "unpack_from", "extend") and any(isinstance(a_, ast.Name) and a_.id == data for a_ in y.args)
+                                for y in calls(fi)):
+                    raise AnalysisError(f"undecided: {c.name}.unpack takes the fixed-size piece `{norm(x)}` out of the buffer; no recognised "
+                                        "comparison of its end with the buffer length, but the decoder does inspect lengths")
+            ctx.check(ok, "length-honoured", fi, x,
+                      f"{c.name}.unpack: end of the fixed-size piece `{norm(x)}` is checked against the buffer ({how})",
+                      f"{c.name}.unpack takes the fixed-size piece `{norm(x)}` out of the buffer by slicing and never compares its end with "
+                      "len(data): a slice never fails, so a message cut off inside (or before) the field is silently accepted with a short / "
+                      "empty value and the returned offset lies outside the buffer (struct.unpack_from would have raised)")
     ctx.floor("length-honoured", n, 4)
 
 
@@ -4066,7 +4878,9 @@ def run(ctx: Ctx) -> None:
     rule_consume_all(ctx)
     rule_snapshot(ctx)
     ctx.assume("exceptions raised inside handler bodies are contained by the try/except in on_packet (checked) - handler bodies themselves are not analysed")
-    ctx.assume("dict subscripts (routing tables) are outside the bounds rule: KeyError from inter-procedural table invariants is not decided")
+    ctx.assume("subscript reads of the crypto endpoint's routing tables (dict[int, ..] attributes of CryptoEndpoint and attributes bound to them) are "
+               "covered by table-read-guarded; a callee that removes the entry between a membership test and the read (other than by a removal "
+               "written in the same function) and subscripts of other dicts are not decided")
     ctx.assume("struct / slicing semantics of CPython (slices never raise)")
     ctx.assume("asyncio hands datagram_received the socket's own address tuple: (host, port) for AF_INET, (host, port, flowinfo, scope_id) for AF_INET6")
 
@@ -4164,6 +4978,34 @@ WITNESSES = [
     {"name": "snapshot handler reads unbound address", "file": "ipv8/peerdiscovery/network.py", "rule": "snapshot-never-raises",
      "old": "                    if offset <= previous_offset:\n                        # We got stuck, or even went back in time.\n                        logger.exception(\"Snapshot loading got stuck! Aborting snapshot load.\")\n                        break\n",
      "new": "                    if offset < previous_offset:\n                        logger.exception(\"Snapshot loading got stuck! Aborting snapshot load.\")\n                        break\n"},
+]
+
+WITNESSES += [
+    {"name": "pre-fix: rendezvous branch of relay_cell reads the other half of the relay pair without a membership test", "file": _CR,
+     "rule": "table-read-guarded",
+     "old": "                this_relay = self.relays.get(next_relay.circuit_id)\n                if this_relay is None:\n"
+            "                    self.logger.warning(\"Dropping cell (other half of the rendezvous relay is gone)\")\n                    return\n",
+     "new": "                this_relay = self.relays[next_relay.circuit_id]\n"},
+    {"name": "process_cell relays a cell whose circuit it never looked up", "file": _CR, "rule": "table-read-guarded",
+     "old": "        next_relay = self.relays.get(circuit_id)\n        if next_relay:\n            this_relay = self.relays.get(next_relay.circuit_id)\n",
+     "new": "        next_relay = self.relays.get(circuit_id)\n        if cell.relay_early or next_relay:\n"
+            "            this_relay = self.relays.get(cell.circuit_id)\n"},
+    {"name": "membership test of relay_cell's read is stale: the entry is dropped between the test and the call", "file": _CR,
+     "rule": "table-read-guarded",
+     "old": "            self.logger.debug(\"Relaying cell from circuit %d to %d\", circuit_id, next_relay.circuit_id)\n",
+     "new": "            self.logger.debug(\"Relaying cell from circuit %d to %d\", circuit_id, next_relay.circuit_id)\n"
+            "            if not this_relay:\n                self.relays.pop(circuit_id, None)\n"},
+]
+
+WITNESSES += [
+    {"name": "round 5: fixed-size byte-string fields unpacked by slicing, never compared with the buffer length", "file": "ipv8/messaging/serialization.py",
+     "rule": "length-honoured",
+     "old": "        result = unpack_from(self.format_str, data, offset)\n        unpack_list.append(result if len(result) > 1 else result[0])\n",
+     "new": "        if self.format_str.endswith(\"s\"):\n            unpack_list.append(data[offset:offset + self.size])\n            return offset + self.size\n"
+            "        result = unpack_from(self.format_str, data, offset)\n        unpack_list.append(result if len(result) > 1 else result[0])\n"},
+    {"name": "round 5: the containing handler's log line dereferences the possibly-None sender", "file": "ipv8/community.py", "rule": "handler-contained",
+     "old": "                self.logger.exception(\"Exception occurred while handling packet!\\n%s\",\n",
+     "new": "                self.logger.exception(\"Exception occurred while handling packet from %s!\\n%s\", probable_peer.mid,\n"},
 ]
 
 _UDP = "ipv8/messaging/interfaces/udp/endpoint.py"
